@@ -190,6 +190,27 @@ func vfStaleSets(sc vfCleanScenario, m *vfModel) (staleEntries map[string][]stri
 		if !strings.Contains(f, ".snap") || usedFile[f] || sa[f] {
 			continue
 		}
+		// a file that belongs to a skip-protected test is not obsolete: a standalone file named after it,
+		// or a multi-entry file holding one of its entries (then only the OTHER entries of that file can be stale)
+		if vfStandaloneOfSkipped(f, sc.Skips) {
+			continue
+		}
+		if es, ok := m.files[f]; ok {
+			prot := false
+			for _, e := range es {
+				if name, _, ok := vfSplitID(e.ID); ok && vfSkipProtected(name, sc.Skips) {
+					prot = true
+				}
+			}
+			if prot {
+				for _, e := range es {
+					if name, _, ok := vfSplitID(e.ID); ok && !vfSkipProtected(name, sc.Skips) {
+						staleEntries[f] = append(staleEntries[f], e.ID)
+					}
+				}
+				continue
+			}
+		}
 		staleFiles = append(staleFiles, f)
 	}
 	sort.Strings(staleFiles)
@@ -262,4 +283,21 @@ func vfSpellDir(dir, how string) string {
 		return filepath.Dir(dir) + "//" + filepath.Base(dir)
 	}
 	return dir
+}
+
+var vfStandaloneRe = regexp.MustCompile(`^(.*)_\d+\.snap(\..*)?$`)
+
+// vfStandaloneOfSkipped: is f the standalone file <name with / as _>_<n>.snap<ext> of a skipped test or of one of its subtests?
+func vfStandaloneOfSkipped(f string, skips []string) bool {
+	mm := vfStandaloneRe.FindStringSubmatch(f)
+	if mm == nil {
+		return false
+	}
+	for _, s := range skips {
+		p := strings.ReplaceAll(s, "/", "_")
+		if mm[1] == p || strings.HasPrefix(mm[1], p+"_") {
+			return true
+		}
+	}
+	return false
 }
